@@ -25,7 +25,8 @@ class C13(Check):
     assumptions = ["raw templater only, so 'renders' is trivially true before and after"]
 
     def pinned(self, tier):
-        return fixlib.pinned_slice(tier, ["all", "format", "core", "layout"], 8, 30, offset=1)
+        yield from fixlib.pinned_slice(tier, ["all", "format", "core", "layout"], 8, 30, offset=1)
+        yield from fixlib.structure_family()
 
     def strategy(self, tier):
         return fixlib.fix_case(tier=tier, kinds=SOFT_KINDS if tier == "quick" else None, structure=True)
